@@ -234,6 +234,17 @@ def _twin_threads(rng, nthreads, small):
     base = ops.gen_make(rng, 's0', small=True, allow_bad=False)
     while base['fn'] == 'make_sequence' or base['fn'].startswith('helpers.'):
         base = ops.gen_make(rng, 's0', small=True, allow_bad=False)
+    # twins use the same *feature* for the first time in the process at the same moment (first-use races of lazy
+    # initialisation): make sure rarely used features (ECI, explicit encodings) are among them
+    if base['fn'] in ('make', 'make_qr') and rng.random() < 0.3:
+        kwb = core.dec(base['kw'])
+        if kwb.get('micro') is not True and not isinstance(kwb.get('version'), str):
+            kwb['eci'] = True
+            kwb.pop('micro', None)
+            if isinstance(core.dec(base['content']), str):
+                kwb['encoding'] = rng.choice(('utf-8', 'iso-8859-15', 'cp1252', 'utf-8'))
+                kwb.pop('mode', None)
+            base = dict(base, kw=core.enc(kwb))
     what = rng.weighted([('save', 50), ('make', 28), ('miter', 8), ('uri', 7), ('cli', 7)])
     kinds = [rng.choice(opts.KINDS) for _ in range(rng.randint(1, 3))]
     threads = [[] for _ in range(nthreads)]
